@@ -185,7 +185,16 @@ fn check_family(
                 _ => false,
             }
         };
-        let class = if nested && mirrored {
+        // the recorded deviations are about well-formed expressions: an expression that the
+        // documented rules reject but that was built all the same is a different defect, and the
+        // law failing on it is not attributed to them
+        let ill_formed = std::iter::once(e_text).chain(member_texts.iter().copied()).any(|t| {
+            syntax::parse(t).map_or(false, |a| matches!(refmodel::rules::check(&a), refmodel::rules::Verdict::MustFail(_)))
+        });
+        let class = if ill_formed {
+            None
+        }
+        else if nested && mirrored {
             Some("nested-tree-position".to_string())
         }
         else if !nested
